@@ -1393,3 +1393,86 @@ Proof.
     + specialize (Hn eq_refl). rewrite H25 in Hlast.
       assert (sa_bottom a * fh c <= 24 * fh c) by (apply Z.mul_le_mono_nonneg_r; lia). lia.
 Qed.
+
+(* ------------------------------------------------------------------------------------------------ *)
+(* _refresh_dbcs: the range it returns contains the range it was given and every cell it changed - for all rows,
+   all contents, all lengths.  This is what `refresh_row` (cells change only inside (s, e)) assumes. *)
+Lemma first_true_spec : forall l i,
+  match first_true l i with
+  | Some f => i <= f /\ forall k, Z.of_nat k + i < f -> nth k l false = false
+  | None => forall k, nth k l false = false
+  end.
+Proof.
+  induction l as [|b r IH]; intros i; cbn [first_true].
+  - intros k. destruct k; reflexivity.
+  - destruct b.
+    + split; [lia|]. intros k Hk. lia.
+    + specialize (IH (i + 1)). destruct (first_true r (i + 1)) as [f|].
+      * destruct IH as [Hf Hall]. split; [lia|]. intros k Hk. destruct k as [|k]; [reflexivity|].
+        cbn [nth]. apply Hall. lia.
+      * intros k. destruct k as [|k]; [reflexivity | apply IH].
+Qed.
+
+Lemma last_true_spec : forall l i,
+  match last_true l i with
+  | Some j => i <= j /\ forall k, j < Z.of_nat k + i -> nth k l false = false
+  | None => forall k, nth k l false = false
+  end.
+Proof.
+  induction l as [|b r IH]; intros i; cbn [last_true].
+  - intros k. destruct k; reflexivity.
+  - specialize (IH (i + 1)). destruct (last_true r (i + 1)) as [j|].
+    + destruct IH as [Hj Hall]. split; [lia|]. intros k Hk. destruct k as [|k]; [lia|].
+      cbn [nth]. apply Hall. lia.
+    + destruct b.
+      * split; [lia|]. intros k Hk. destruct k as [|k]; [lia | cbn [nth]; apply IH].
+      * intros k. destruct k as [|k]; [reflexivity | apply IH].
+Qed.
+
+Lemma updated_false : forall o n k d, length o = length n -> (k < length n)%nat ->
+  nth k (updated o n) false = false -> nth k n d = nth k o d.
+Proof.
+  induction o as [|a o IH]; intros n k d Hl Hk H; destruct n as [|b n]; cbn in Hl, Hk; try lia.
+  destruct k as [|k]; cbn [updated nth] in *.
+  - apply negb_false_iff, Z.eqb_eq in H. congruence.
+  - apply IH; [lia | lia | exact H].
+Qed.
+
+Lemma updated_length : forall o n, length o = length n -> length (updated o n) = length n.
+Proof. induction o as [|a o IH]; intros [|b n] H; cbn in *; try lia. rewrite IH; lia. Qed.
+
+Theorem refresh_range_covers : forall o n os oe s e d, length o = length n ->
+  refresh_range o n os oe = (s, e) ->
+  s <= os /\ oe <= e /\
+  forall k, (k < length n)%nat -> ~ (s <= Z.of_nat k + 1 <= e) -> nth k n d = nth k o d.
+Proof.
+  intros o n os oe s e d Hl H. unfold refresh_range in H. cbv zeta in H.
+  pose proof (first_true_spec (updated o n) 1) as F. pose proof (last_true_spec (updated o n) 1) as L.
+  destruct (first_true (updated o n) 1) as [f|]; [destruct (last_true (updated o n) 1) as [l|]|].
+  - inversion H; subst s e. split; [lia|]. split; [lia|].
+    destruct F as [_ F]. destruct L as [_ L]. intros k Hk Hout.
+    apply updated_false; [exact Hl | exact Hk |].
+    destruct (Z_lt_le_dec (Z.of_nat k + 1) f) as [Hlt|Hge]; [apply F; exact Hlt|].
+    apply L. lia.
+  - inversion H; subst s e. split; [lia|]. split; [lia|]. intros k Hk _.
+    apply updated_false; [exact Hl | exact Hk | apply L].
+  - inversion H; subst s e. split; [lia|]. split; [lia|]. intros k Hk _.
+    apply updated_false; [exact Hl | exact Hk | apply F].
+Qed.
+
+(* hence replacing the whole unicode row (what the code does) is the model's `refresh_row` on that range *)
+Theorem refresh_row_is_whole_row : forall pg r o n os oe s e, length o = length n ->
+  refresh_range o n os oe = (s, e) ->
+  (forall col, 1 <= col <= zlen n -> txt pg r col = row_fn o col) ->
+  forall col, 1 <= col <= zlen n ->
+  txt (refresh_row pg r s e (fun _ c => row_fn n c)) r col = row_fn n col.
+Proof.
+  intros pg r o n os oe s e Hl H Hold col Hc.
+  destruct (refresh_range_covers o n os oe s e blank Hl H) as (_ & _ & Hcov).
+  unfold refresh_row. cbn [txt set_txt].
+  destruct (incells r r s e r col) eqn:E.
+  - apply incells_true in E. rewrite tset_in by lia. reflexivity.
+  - apply incells_false in E. rewrite tset_out by exact E. rewrite Hold by exact Hc.
+    unfold row_fn. unfold zlen in Hc. symmetry. apply Hcov; [lia|].
+    rewrite Z2Nat.id by lia. intros Hin. apply E. lia.
+Qed.
